@@ -811,6 +811,15 @@ package bpmn
 
 // trySync: the join fires (probe sent to the activating token, once) only when nothing has fired yet for this
 // activation and as many matches as awaited tokens were counted; otherwise nothing happens.
+// How many (arrived, awaited) pairs of flow identifiers are equal: rowCount counts the occurrences of x among n
+// identifiers stored from position lo of W, pairCount sums it over the first na identifiers of A.
+//@ spec func rowCount(W (Array Int Iface), lo int, n int, x Iface) int =
+//@   n <= 0 ? 0 : rowCount(W, lo, n - 1, x) + (W[lo + n - 1] == x ? 1 : 0)
+//@ spec func pairCount(A (Array Int Iface), alo int, na int, W (Array Int Iface), wlo int, nw int) int =
+//@   na <= 0 ? 0 : pairCount(A, alo, na - 1, W, wlo, nw) + rowCount(W, wlo, nw, A[alo + na - 1])
+//@ spec func joinMatches(gw *inclusiveGateway, na int) int =
+//@   pairCount(heap("E:id.Id", "(Array Int (Array Int Iface))")[base(gw.arrived)], off(gw.arrived), na, heap("E:id.Id", "(Array Int (Array Int Iface))")[base(gw.awaiting)], off(gw.awaiting), len(gw.awaiting))
+
 //@ func (*inclusiveGateway).trySync
 //@   prop C05
 //@   requires gw.activated != nil
@@ -824,10 +833,14 @@ package bpmn
 //@             is(evval(ev(old(evlen))), probeAction) && evval(ev(old(evlen))).(probeAction).sequenceFlows == gw.nonDefaultSequenceFlows
 //@   ensures [not-firing-leaves-the-flag] evlen == old(evlen) ==> gw.synchronized == old(gw.synchronized)
 //@   ensures [nothing-awaited-fires-at-once] !old(gw.synchronized) && len(gw.awaiting) == 0 ==> evlen == old(evlen) + 1
+//@   ensures [fires-exactly-when-the-awaited-tokens-are-matched-by-arrivals] !old(gw.synchronized) && len(gw.arrived) >= len(gw.awaiting) ==>
+//@             (evlen == old(evlen) + 1 <==> joinMatches(gw, len(gw.arrived)) == len(gw.awaiting))
 //@   loop 1 range gw.arrived
 //@     invariant 0 <= matches && evlen == old(evlen) && gw.synchronized == old(gw.synchronized) && (len(gw.awaiting) == 0 ==> matches == 0)
+//@     invariant matches == joinMatches(gw, rk1)
 //@   loop 2 range gw.awaiting
 //@     invariant 0 <= matches && evlen == old(evlen) && gw.synchronized == old(gw.synchronized) && (len(gw.awaiting) == 0 ==> matches == 0)
+//@     invariant matches == joinMatches(gw, rk1) + rowCount(heap("E:id.Id", "(Array Int (Array Int Iface))")[base(gw.awaiting)], off(gw.awaiting), rk2, gw.arrived[i])
 
 // run: fork on all true flows / default / error; join bookkeeping per message.
 //@ func (*inclusiveGateway).run
